@@ -33,6 +33,9 @@ pub enum Ty {
     PsetKey,
     PsetPair,
     PsetPropKey,
+    PsetGlobal,
+    PsetInput,
+    PsetOutput,
 }
 
 pub const CONSENSUS_TYPES: [Ty; 16] = [
@@ -53,12 +56,12 @@ pub const CONSENSUS_TYPES: [Ty; 16] = [
     Ty::LockTime,
     Ty::Sequence,
 ];
-pub const PSET_TYPES: [Ty; 4] = [Ty::Pset, Ty::PsetKey, Ty::PsetPair, Ty::PsetPropKey];
+pub const PSET_TYPES: [Ty; 7] = [Ty::Pset, Ty::PsetKey, Ty::PsetPair, Ty::PsetPropKey, Ty::PsetGlobal, Ty::PsetInput, Ty::PsetOutput];
 
 impl Ty {
     pub fn prop(self) -> &'static str {
         match self {
-            Ty::Pset | Ty::PsetKey | Ty::PsetPair | Ty::PsetPropKey => "C07",
+            Ty::Pset | Ty::PsetKey | Ty::PsetPair | Ty::PsetPropKey | Ty::PsetGlobal | Ty::PsetInput | Ty::PsetOutput => "C07",
             _ => "C01",
         }
     }
@@ -201,6 +204,15 @@ fn visit_corpus<V: ObjVisitor>(spec: &ObjSpec, vis: V) -> Option<V> {
         Ty::LockTime => {
             let t = whole!(elements::Transaction, Kind::Tx);
             vis.visit(t.lock_time, spec.ty)
+        }
+        Ty::PsetGlobal | Ty::PsetInput | Ty::PsetOutput => {
+            let ps = whole!(elements::pset::PartiallySignedTransaction, Kind::Pset);
+            match spec.ty {
+                Ty::PsetGlobal => vis.visit(ps.global.clone(), spec.ty),
+                Ty::PsetInput if !ps.inputs().is_empty() => vis.visit(ps.inputs()[p.usize_below(ps.inputs().len())].clone(), spec.ty),
+                Ty::PsetOutput if !ps.outputs().is_empty() => vis.visit(ps.outputs()[p.usize_below(ps.outputs().len())].clone(), spec.ty),
+                _ => return Some(vis),
+            }
         }
         Ty::PsetKey | Ty::PsetPair | Ty::PsetPropKey => return Some(vis),
     }
@@ -363,7 +375,15 @@ pub fn build_and_visit<V: ObjVisitor>(spec: &ObjSpec, vis: V) {
         Ty::PsetKey => vis.visit(crate::psetgen::raw_key(&mut p), spec.ty),
         Ty::PsetPair => vis.visit(crate::psetgen::raw_pair(&mut p), spec.ty),
         Ty::PsetPropKey => vis.visit(crate::psetgen::prop_key(&mut p), spec.ty),
+        // the three maps are public Encodable + Decodable types of their own
+        Ty::PsetGlobal => vis.visit(crate::psetgen::pset(&map_spec(spec, &mut p)).global, spec.ty),
+        Ty::PsetInput => vis.visit(crate::psetgen::input(&mut p, &map_spec(spec, &mut Prng::from_u64(spec.seed ^ 1))), spec.ty),
+        Ty::PsetOutput => vis.visit(crate::psetgen::output(&mut p, &map_spec(spec, &mut Prng::from_u64(spec.seed ^ 1)), 3), spec.ty),
     }
+}
+
+fn map_spec(spec: &ObjSpec, p: &mut Prng) -> crate::psetgen::PsetSpec {
+    spec.pset.clone().unwrap_or_else(|| crate::psetgen::PsetSpec::draw(p))
 }
 
 // ------------------------------------------------------------------------------------------------
@@ -803,7 +823,7 @@ fn draw_obj(p: &mut Prng, types: &[Ty]) -> ObjSpec {
     if ty == Ty::Block {
         tx.max_blob = tx.max_blob.min(300);
     }
-    let pset = if ty == Ty::Pset { Some(crate::psetgen::PsetSpec::draw(p)) } else { None };
+    let pset = if matches!(ty, Ty::Pset | Ty::PsetGlobal | Ty::PsetInput | Ty::PsetOutput) { Some(crate::psetgen::PsetSpec::draw(p)) } else { None };
     // one object in eight is (or is cut out of) one of the repository's own vectors
     let n = p.u32();
     let corpus = if p.chance(1, 8) { Some(n) } else { None };
